@@ -810,7 +810,22 @@ func poolRunFecCase(id int, lg *vlog, rep *vreport, z *poolSanitizer, rng *vrng,
 		}
 		gated := seqid >= dec.paws || dec.shouldTune || mismatch
 		g1, p1 := z.counts()
-		rec := dec.decode(f)
+		var rec [][]byte
+		if pn := func() (p string) {
+			defer func() {
+				if r := recover(); r != nil {
+					p = fmt.Sprint(r)
+				}
+			}()
+			rec = dec.decode(f)
+			return ""
+		}(); pn != "" {
+			// a decoder working on recycled or stale buffers may well crash: that is the finding
+			z.mu.Lock()
+			z.violate("pool-fec-decode-panic", fmt.Sprintf("fecDecoder.decode panicked on a genuine packet (seqid %d) after earlier recoveries: %s", seqid, pn))
+			z.mu.Unlock()
+			return
+		}
 		for _, r := range rec { // what kcpInput does with them
 			if len(r) >= 2 && binary.LittleEndian.Uint16(r) == 0xdbdb {
 				z.mu.Lock()
